@@ -17,7 +17,7 @@ LEVEL = "exploration"
 RULE = ("random aggregates of 1-6 two-level molecules (mult 2 up to 5 molecules, thorough 6), symmetric coupling matrices with zeros and mixed signs, "
         "degenerate energies, random dipoles; every permutation of the molecule list for N<=4 (3 random ones above); parameters supplied under each "
         "energy unit and built inside/outside unit contexts; random geometries (incl. collinear and orthogonal) for the point-dipole formula with "
-        "eps_r in [1,4]. distinct = (class, N, mult, unit, coupling sparsity pattern, rounded parameters); "
+        "eps_r in [1,4]; every aggregate is re-parameterised afterwards (set_energy, assignment of the elenergies array, set_dipole, set_resonance_coupling) and rebuilt. distinct = (class, N, mult, unit, coupling sparsity pattern, rounded parameters); "
         "non-trivial iff at least one non-zero coupling and, for mult 2, at least one pair of two-exciton states differing by one move.")
 ASSUMPTIONS = ["two-level molecules without vibrational modes (vibronic structure is C10's domain)",
                "within a band the order of states is left to the implementation: elements are addressed through Aggregate.elsigs"]
